@@ -1032,10 +1032,10 @@ fn pick_sh(r: &mut Rng) -> i32 {
     }
 }
 fn lat_far(r: &mut Rng) -> Lat {
-    Lat { ox: *r.pick(&FAR), oy: *r.pick(&FAR), sh: pick_sh(r) }
+    Lat { ox: *r.pick(&FAR), oy: *r.pick(&FAR), sh: pick_sh(r), shear: 0 }
 }
 fn lat_f32(r: &mut Rng) -> Lat {
-    Lat { ox: *r.pick(&NEAR32), oy: *r.pick(&NEAR32), sh: pick_sh(r) }
+    Lat { ox: *r.pick(&NEAR32), oy: *r.pick(&NEAR32), sh: pick_sh(r), shear: 0 }
 }
 fn pick_lat(r: &mut Rng) -> Lat {
     if r.chance(3, 10) {
@@ -1045,7 +1045,7 @@ fn pick_lat(r: &mut Rng) -> Lat {
     }
 }
 fn lat_scale_only(r: &mut Rng) -> Lat {
-    Lat { ox: 0, oy: 0, sh: r.range(-30, 30) as i32 }
+    Lat { ox: 0, oy: 0, sh: r.range(-30, 30) as i32, shear: 0 }
 }
 
 /// re-spell a closed ring: requested direction, position of the lexicographically least vertex, repeats
@@ -1470,7 +1470,7 @@ fn gen_ring_case(r: &mut Rng, big: bool) -> Option<(IG, Lat, &'static str)> {
         }
         13 => {
             let t = gen_sliver(r);
-            (IG::LineString(style_ring(r, &[t[0], t[1], t[2], t[0]], None)), Lat { ox: 0, oy: 0, sh: pick_sh(r) }, "ring.sliver")
+            (IG::LineString(style_ring(r, &[t[0], t[1], t[2], t[0]], None)), Lat { ox: 0, oy: 0, sh: pick_sh(r), shear: 0 }, "ring.sliver")
         }
         _ => {
             let mixed = r.chance(1, 2);
